@@ -412,3 +412,33 @@ def float_taint(repo, mod, fn, e, depth=0):
                 if why:
                     return '%s = %s' % (x.id, why)
     return None
+
+
+def guarded_creations(func, target, method):
+    """the places where `target` gets the result of a call of `.method(...)`: [(call node, atoms true there, statement)], and the other values target is given.
+    The guard may be a conditional expression around the call or an enclosing `if` (path facts)."""
+    g, fl = flow_of(func)
+    made, other = [], []
+    for n in g.stmt_nodes():
+        if not (n.kind == 'stmt' and isinstance(n.ast, ast.Assign) and len(n.ast.targets) == 1 and src(n.ast.targets[0]) == target):
+            continue
+        arms = [(n.ast.value, [])]
+        leaves = []
+        while arms:
+            e, atoms = arms.pop()
+            if isinstance(e, ast.IfExp):
+                tv = e.test.values if isinstance(e.test, ast.BoolOp) and isinstance(e.test.op, ast.And) else [e.test]
+                arms.append((e.body, atoms + [src(v) for v in tv]))
+                arms.append((e.orelse, atoms))
+            else:
+                leaves.append((e, atoms))
+        for e, atoms in leaves:
+            if isinstance(e, ast.Call) and isinstance(e.func, ast.Attribute) and e.func.attr == method:
+                known = None
+                for fa, _c in fl.at(n):
+                    ks = set(k for k, p in fa.items if p)
+                    known = ks if known is None else (known & ks)
+                made.append((e, set(atoms) | (known or set()), n.ast))
+            else:
+                other.append(e)
+    return made, other
